@@ -19,7 +19,7 @@ type ops31 struct {
 	q    uint64
 	// each returns the raw limb of the result for raw limb input m
 	neg, dbl, sq, inv, halve, mul3, mul5, mul13 func(m uint32) uint32
-	mulc                                         func(m, c uint32) uint32
+	mulc                                        func(m, c uint32) uint32
 }
 
 func powmod(b, e, q uint64) uint64 {
@@ -45,7 +45,13 @@ func sweep31(c *mon.Ctx) {
 		mul3:  func(m uint32) uint32 { x := koalabear.Element{m}; koalabear.MulBy3(&x); return x[0] },
 		mul5:  func(m uint32) uint32 { x := koalabear.Element{m}; koalabear.MulBy5(&x); return x[0] },
 		mul13: func(m uint32) uint32 { x := koalabear.Element{m}; koalabear.MulBy13(&x); return x[0] },
-		mulc:  func(m, k uint32) uint32 { x := koalabear.Element{m}; y := koalabear.Element{k}; var z koalabear.Element; z.Mul(&x, &y); return z[0] },
+		mulc: func(m, k uint32) uint32 {
+			x := koalabear.Element{m}
+			y := koalabear.Element{k}
+			var z koalabear.Element
+			z.Mul(&x, &y)
+			return z[0]
+		},
 	}
 	bb := ops31{name: "field/babybear", q: 2013265921,
 		neg:   func(m uint32) uint32 { x := babybear.Element{m}; var z babybear.Element; z.Neg(&x); return z[0] },
@@ -56,7 +62,13 @@ func sweep31(c *mon.Ctx) {
 		mul3:  func(m uint32) uint32 { x := babybear.Element{m}; babybear.MulBy3(&x); return x[0] },
 		mul5:  func(m uint32) uint32 { x := babybear.Element{m}; babybear.MulBy5(&x); return x[0] },
 		mul13: func(m uint32) uint32 { x := babybear.Element{m}; babybear.MulBy13(&x); return x[0] },
-		mulc:  func(m, k uint32) uint32 { x := babybear.Element{m}; y := babybear.Element{k}; var z babybear.Element; z.Mul(&x, &y); return z[0] },
+		mulc: func(m, k uint32) uint32 {
+			x := babybear.Element{m}
+			y := babybear.Element{k}
+			var z babybear.Element
+			z.Mul(&x, &y)
+			return z[0]
+		},
 	}
 	for _, o := range []ops31{kb, bb} {
 		q := o.q
